@@ -222,7 +222,7 @@ func main() {
 	setup()
 	r.Rule = "BFS over all histories of {PushTx x6 (3 per sender, one is a 2-member group, one expires by height, one by block time), RemoveTxs x7, eventAddBlock x4, eventDelBlock x4, removeExpired at the current header and at 3 (height,time) edges, 300s/600s of pool age} on a real Mempool with capacity 3, per-sender limit 2, latest-list 2; states de-duplicated on (queue contents in order with age class, latest list, header); distinct = outcome classes of the events (push errors, sweeps that removed, effective/ignored rollbacks...)"
 	r.Assume = []string{
-		"sequential histories only (the concurrent part of C21 is a separate harness)",
+		"concurrent part (conc.go): three threads of 1-2 operations each on the instrumented pool, every schedule within the deviation bound, invariants recomputed at quiescence; answers of concurrent queries are not judged",
 		"submission = Mempool.PushTx (the admission checks in front of it are C22's subject)",
 		"pool age is owned by shifting the EnterTime of every held item (the pool uses the clock only as Now-EnterTime); age steps are 300 s and 600 s so that sub-second timing never decides",
 		"latest-transactions list is required to be a duplicate-free subset of the pool of at most MaxTxLast entries in arrival order, not 'the N newest' (DESIGN 3.0)",
@@ -281,6 +281,7 @@ func main() {
 		capPool, capSender, capLast = 3, 2, 2
 		cq.Explore()
 	}
+	concurrentPart(r)
 	r.Floors["outcomes"] = 14
 	r.Floors["states"] = 300
 	r.Finish()
